@@ -40,6 +40,7 @@ class SokobanH(Harness):
     ENV = "Sokoban"
     QUICK = ["Sokoban"]
     THOROUGH = ["Sokoban@toy"]
+    C11_SPECIAL_CFGS = ["Sokoban@toy"]   # the other shipped generator builds its own initial State (its own step_count dtype)
     MASKED = False
     INVALID = "ignore"
     TIME_LIMIT = True
